@@ -204,6 +204,18 @@ def run(ctx):
                f'what the user wrote', file=lex.file, line=sites[0].lineno,
                witness="select 'it''s' 'x'   -- the message shows 'it's' and too few carets")
 
+    # (4b) "verified by a re-parse" means something only if a re-parse that hits an error is a refusal: the error callback of the parser drains the token
+    #      stream and reports on every path (C05's rules on the callback, re-run here); otherwise sly's recovery resynchronises and accepts a tail
+    from .. import core
+    from . import C05
+    sub = core.Ctx('C05', ctx.src, ctx.tier)
+    C05.check_error_callback(sub, 'mindsdb', g)
+    ctx.setcount('error_callback_obligations', sum(v[0] for k_, v in sub.rules.items()))
+    ctx.ob('C19.suggestions-verified', 'reparse-is-exact', True, '')
+    for f in sub.findings:
+        ctx.ob('C19.suggestions-verified', f'reparse-is-exact:{f.construct}', False,
+               f'a suggestion counts as verified when the re-parse with it succeeds, but the re-parse is not exact: {f.msg}', file=f.file, line=f.line,
+               witness='delete from t select a = 1')
     # (5a) the shown line and the caret line, by interpretation of error_location on token lists with source positions -------------------------------
     check_caret_alignment(ctx, sm, el)
 
